@@ -30,11 +30,7 @@ impl<'a> ReadBuf<'a> {
     pub fn put_slice(&mut self, s: &[u8]) {
         assert!(self.remaining() >= s.len(), "buf.len() must fit in remaining()");
         let end = self.filled + s.len();
-        let mut i = 0;
-        while i < s.len() {
-            self.buf[self.filled + i] = s[i];
-            i += 1;
-        }
+        self.buf[self.filled..end].copy_from_slice(s);
         self.filled = end;
     }
 }
